@@ -32,6 +32,16 @@ CLAIMED = {
     note="Trusted: TLC, BigInt window arithmetic (self-checked against native integers). Operands up to ~33 words in GEN, 20 words random.",
     technique="TLA+ algorithm-layer model checked by TLC + TLC-generated cases replayed into the code + TLC trace validation",
     design="5.C09"),
+ "C15": dict(
+    text="The call-form inventory (63 operation keys, 1903 forms: owned/borrowed operands, compound assignment, every primitive width on "
+         "either side, trait-method forms, Euclidean forms, ConstDivisor, Context method vs FBig operator, Reduced operators) is a TLA+ "
+         "constant (Inventory.tla); the drivers of C01/C02/C09 plus a float/rational/modular forms driver execute every form per operand "
+         "tuple and a TLC monitor (Trace_C15) requires agreement of all forms (division: on every shared part) and membership in the "
+         "inventory; clone/clone_from independence is a TLA+ register machine validated step by step against recorded register files.",
+    note="Trusted: TLC; grouping of byte-identical outcomes in the harness. At least 90% of the inventory must be exercised per run "
+         "(measured, else tool error). Known finding F11/C15 (unsigned-primitive-typed division results) matched by form and input class.",
+    technique="TLA+ form inventory + register machine, TLC trace validation of recorded call forms",
+    design="5.C15"),
 }
 NA_REASON = "check not built yet in this round (planned, see DESIGN.md section 9)"
 
